@@ -203,3 +203,5 @@ def run(ctx, tier: str, seed: int) -> None:
                       f"segments / data elements per node, value pools of <= 3 entries, expressions from a pool of "
                       f"{len(G.POOL_C13)}, entered inputs absent/empty/offered/not offered/foreign, "
                       f"{len(cers)} content evaluation results, both flags, deep + validate_segment_level")
+    from bounded import valhist
+    valhist.run_histories(ctx, tier, seed, G.POOL_C13, entry_pool, cers)
